@@ -166,6 +166,7 @@ fn touching(p: &[i64], rules: &[RuleN], u: i64) -> bool {
 /// candidate coordinates on one axis: domain ends, every (clamped) edge, one step either side
 fn axis_coords(rules: &[RuleN], a: usize, lo: i64, hi: i64, u: i64, step: i64) -> Vec<i64> {
     let mut s: BTreeSet<i64> = BTreeSet::new();
+    let mut ambiguous: BTreeSet<i64> = BTreeSet::new();
     s.insert(lo);
     s.insert(hi);
     if lo <= 0 && 0 <= hi {
@@ -181,6 +182,9 @@ fn axis_coords(rules: &[RuleN], a: usize, lo: i64, hi: i64, u: i64, step: i64) -
                         let on_grid = e.rem_euclid(step) == 0;
                         let q = if e >= 0 { (2 * e + step) / (2 * step) * step } else { -((-2 * e + step) / (2 * step)) * step };
                         let cand = if on_grid { vec![e - step, e, e + step] } else { vec![q - step, q + step] };
+                        if !on_grid {
+                            ambiguous.insert(q);
+                        }
                         for v in cand {
                             if lo <= v && v <= hi {
                                 s.insert(v);
@@ -198,7 +202,7 @@ fn axis_coords(rules: &[RuleN], a: usize, lo: i64, hi: i64, u: i64, step: i64) -
             s.insert(w[0] + (w[1] - w[0]) / (2 * step) * step);
         }
     }
-    s.into_iter().collect()
+    s.into_iter().filter(|v| !ambiguous.contains(v)).collect()
 }
 
 fn points(rng: &mut Rng, rules: &[RuleN], doms: &[(i64, i64)], u: i64, step: i64, cap: usize) -> Vec<Vec<i64>> {
